@@ -584,6 +584,51 @@ func ruleCOW5(r *Run) {
 					unsafe, why = true, fmt.Sprintf("the elements of %s are written in place by %s", w.Target(), ws[0])
 				}
 			}
+			// a container made by a shallow copier - maps.Clone / slices.Clone, or a module helper that fills a new
+			// map from its argument (copyMap(s.handlers)) - shares every element of the source
+			if w.Kind == "store" {
+				for _, o := range p.origins(val, originOpts{local: true}) {
+					c, ok := o.(*ssa.Call)
+					if !ok || len(c.Call.Args) == 0 {
+						continue
+					}
+					var src ssa.Value
+					n := calleeName(c)
+					switch {
+					case strings.HasPrefix(n, "maps.Clone") || strings.HasPrefix(n, "slices.Clone"):
+						src = c.Call.Args[0]
+					default:
+						if i := p.shallowCopierParam(c.Call.StaticCallee()); i >= 0 && i < len(c.Call.Args) {
+							src = c.Call.Args[i]
+						}
+					}
+					if src == nil {
+						continue
+					}
+					var et types.Type
+					switch ct := src.Type().Underlying().(type) {
+					case *types.Map:
+						et = ct.Elem()
+					case *types.Slice:
+						et = ct.Elem()
+					default:
+						continue
+					}
+					eu, ewhy := e.UnsafeToShare(et)
+					if ws, ok := cm[w.Target()+"[]"]; ok {
+						eu, ewhy = true, fmt.Sprintf("the elements of %s are written in place by %s", w.Target(), ws[0])
+					}
+					ek := fmt.Sprintf("%s/shares:%s[]", key, w.Target())
+					if !eu {
+						r.ok(ek, c.Pos(), "elements of type %s may be shared: no writer mutates them in place (re-derived from EFFECTS)", typeString(et))
+						continue
+					}
+					if shared, what := fromReceiver(src); shared {
+						r.bad(ek, c.Pos(), "clone fills the copy's %s with the elements of %s (type %s) of the published snapshot through %s, but %s: a later registration or drop overwrites memory that concurrent requests are reading",
+							w.Target(), what, typeString(et), shortName(n), ewhy)
+					}
+				}
+			}
 			// a container built in a local variable and then stored into the result: its elements are checked here
 			if w.Kind == "store" {
 				for _, o := range p.origins(val, originOpts{}) {
@@ -592,6 +637,50 @@ func ruleCOW5(r *Run) {
 					default:
 						continue
 					}
+					// filled in one call from a container of the snapshot (maps.Copy(handlers, s.handlers)): every
+					// element of the source is shared
+					eachInstr(fn, func(x ssa.Instruction) {
+						c, ok := x.(*ssa.Call)
+						if !ok || len(c.Call.Args) < 2 {
+							return
+						}
+						switch calleeName(c) {
+						case "maps.Copy", "maps.Insert":
+						default:
+							if !strings.HasPrefix(calleeName(c), "maps.Copy[") {
+								return
+							}
+						}
+						isDst := false
+						for _, d := range p.origins(c.Call.Args[0], originOpts{}) {
+							if d == o {
+								isDst = true
+							}
+						}
+						if !isDst {
+							return
+						}
+						var et types.Type
+						switch mt := c.Call.Args[1].Type().Underlying().(type) {
+						case *types.Map:
+							et = mt.Elem()
+						default:
+							return
+						}
+						eu, ewhy := e.UnsafeToShare(et)
+						if ws, ok := cm[w.Target()+"[]"]; ok {
+							eu, ewhy = true, fmt.Sprintf("the elements of %s are written in place by %s", w.Target(), ws[0])
+						}
+						ek := fmt.Sprintf("%s/shares:%s[]", key, w.Target())
+						if !eu {
+							r.ok(ek, x.Pos(), "elements of type %s may be shared: no writer mutates them in place (re-derived from EFFECTS)", typeString(et))
+							return
+						}
+						if shared, what := fromReceiver(c.Call.Args[1]); shared {
+							r.bad(ek, x.Pos(), "clone copies the elements of %s (type %s) from the published snapshot into the copy's %s in one call, but %s: a later registration or drop overwrites memory that concurrent requests are reading",
+								what, typeString(et), w.Target(), ewhy)
+						}
+					})
 					eachInstr(fn, func(x ssa.Instruction) {
 						var elem ssa.Value
 						switch y := x.(type) {
@@ -916,6 +1005,54 @@ func ruleOptsRO(r *Run) {
 			r.undecided(typ+".opts", token.NoPos, "no store to %s.opts found", typ)
 		}
 	}
+}
+
+// shallowCopierParam: fn returns a map it has just made and filled, element by element, from one of its parameters
+// (func copyMap[K comparable, V any](m map[K]V) map[K]V); the index of that parameter, -1 otherwise.
+func (p *Program) shallowCopierParam(fn *ssa.Function) int {
+	if fn == nil || !p.InModule(fn) || len(fn.Blocks) == 0 || fn.Signature.Results().Len() != 1 {
+		return -1
+	}
+	var made ssa.Value
+	for _, rv := range returnsOf(fn, 0) {
+		for _, o := range p.origins(rv, originOpts{local: true}) {
+			if mm, ok := o.(*ssa.MakeMap); ok {
+				made = mm
+			} else {
+				return -1
+			}
+		}
+	}
+	if made == nil {
+		return -1
+	}
+	idx := -1
+	eachInstr(fn, func(in ssa.Instruction) {
+		mu, ok := in.(*ssa.MapUpdate)
+		if !ok || mu.Map != made {
+			return
+		}
+		for _, o := range p.origins(mu.Value, originOpts{local: true}) {
+			ex, ok := o.(*ssa.Extract)
+			if !ok {
+				continue
+			}
+			nx, ok := ex.Tuple.(*ssa.Next)
+			if !ok {
+				continue
+			}
+			rg, ok := nx.Iter.(*ssa.Range)
+			if !ok {
+				continue
+			}
+			for i, par := range fn.Params {
+				if rg.X == ssa.Value(par) {
+					idx = i
+				}
+			}
+		}
+	})
+	return idx
 }
 
 func ruleWriterPublishes(r *Run) {
